@@ -648,6 +648,10 @@ pub fn add_dev_classes(suite: &str, rng: &mut Rng, sink: &mut Sink, thorough: bo
             let op = gen_dev_adr_silent(suite, region, rng, i % 2 == 0);
             sink.case(&op, &eval(&op), "device-adr-silent-run", true);
         }
+        for _ in 0..(if thorough { 60 } else { 6 }) {
+            let op = gen_dev_listen(suite, region, rng);
+            sink.case(&op, &eval(&op), "device-rxc-listen", true);
+        }
     }
 }
 
@@ -666,6 +670,10 @@ pub fn oracle_c05_dev(op: &str, outs: &[String]) -> String {
     // is dropped, as coded) until `take`
     let mut hold = false;
     let mut queue: Vec<String> = vec![];
+    // size limit of the window being listened in: the most recent `srx(..)`; `rxc_listen` goes on
+    // listening on what the last `window_complete` configured
+    let mut mp: Option<u32> = None;
+    let mut lost = false;
     for (ev, o) in evs.iter().zip(outs.iter()) {
         if o == "PANIC" || o == "HANG" || o.contains("STUCK") {
             return format!("FAIL:{}", o.split_whitespace().next().unwrap_or("?"));
@@ -692,19 +700,39 @@ pub fn oracle_c05_dev(op: &str, outs: &[String]) -> String {
             Some("abp") => {
                 joined = true;
                 last = None;
+                lost = false;
                 continue;
             }
             Some("sess") => {
+                lost = false;
                 joined = true;
                 last = w.get(3).and_then(|x| x.parse().ok());
                 continue;
             }
-            Some("asend") | Some("ajoin") => {}
+            Some("asend") | Some("ajoin") | Some("alisten") => {}
+            Some("dr") => {
+                // the RXC limit in force is no longer the last configured one
+                mp = None;
+                continue;
+            }
             _ => continue,
         }
         let is_join = w[0] == "ajoin";
         if is_join {
             joined = false;
+            lost = false;
+        }
+        if lost {
+            // keep the size limit up to date, judge nothing
+            if let Some(body) = o.strip_prefix("calls=") {
+                for c in body.split(" => ").next().unwrap_or("").split(';') {
+                    if c.starts_with("srx(") {
+                        let f: Vec<&str> = c.trim_start_matches("srx(").trim_end_matches(')').split(',').collect();
+                        mp = f.get(3).and_then(|x| x.parse().ok());
+                    }
+                }
+            }
+            continue;
         }
         if !o.starts_with("calls=") {
             continue;
@@ -716,7 +744,9 @@ pub fn oracle_c05_dev(op: &str, outs: &[String]) -> String {
         };
         let items: Vec<&str> = script.split_whitespace().collect();
         let mut it = items.iter();
-        let mut mp: Option<u32> = None; // size limit of the window being listened in
+        let is_listen = w[0] == "alisten";
+        let mut stop = false; // `rxc_listen` returns at the first frame it acts upon
+        let mut undecided = false;
         let mut expect_dls: Vec<String> = vec![];
         let mut class_a_accept: Option<u32> = None;
         for c in calls_s.split(';') {
@@ -725,6 +755,9 @@ pub fn oracle_c05_dev(op: &str, outs: &[String]) -> String {
                 continue;
             }
             let item = it.next().copied().unwrap_or("O");
+            if stop {
+                continue;
+            }
             if c.starts_with("srx(") {
                 let f: Vec<&str> = c.trim_start_matches("srx(").trim_end_matches(')').split(',').collect();
                 mp = f.get(3).and_then(|x| x.parse().ok());
@@ -758,11 +791,22 @@ pub fn oracle_c05_dev(op: &str, outs: &[String]) -> String {
             };
             let fits = match mp {
                 Some(m) => len <= m + 5,
-                None => continue,
+                None => {
+                    // the size limit in force is not known from the trace (a `rxc_listen` before any
+                    // window was configured, or after `set_datarate`): this event is not judged
+                    undecided = true;
+                    continue;
+                }
             };
             if fresh && fits {
                 let n = mic.unwrap();
                 last = Some(n);
+                if is_listen {
+                    stop = true;
+                    if !(rest.contains(&format!("DownlinkReceived({})", n)) || rest.contains("SessionExpired")) {
+                        return format!("FAIL:listen-accepted-frame-{}-not-reported: {}", n, rest.split_whitespace().next().unwrap_or(""));
+                    }
+                }
                 if let Ok(p) = f[8].parse::<u8>() {
                     if p > 0 {
                         expect_dls.push(format!("{}:{}", p, if f[9] == "-" { "" } else { f[9] }));
@@ -775,6 +819,16 @@ pub fn oracle_c05_dev(op: &str, outs: &[String]) -> String {
         }
         if is_join {
             continue;
+        }
+        if undecided {
+            // what was heard may or may not have been accepted: the tracker is lost until the next session
+            lost = true;
+            continue;
+        }
+        // `rxc_listen` at the exhausted uplink counter: the acceptance is answered SessionExpired and
+        // nothing is delivered (second disjunct of C05.accept_iff)
+        if is_listen && rest.contains("SessionExpired") {
+            expect_dls.clear();
         }
         let dls = rest.split(" dls=").nth(1).unwrap_or("-").trim();
         let got: Vec<String> = if dls == "-" { vec![] } else { dls.split(',').map(|x| x.to_string()).collect() };
@@ -814,7 +868,7 @@ pub fn oracle_c05_dev(op: &str, outs: &[String]) -> String {
 
 /// every device-level oracle that applies to the async front-end, in one
 pub fn oracle_dev_all(op: &str, outs: &[String]) -> String {
-    for f in [oracle_c04_dev as fn(&str, &[String]) -> String, oracle_c06_dev, oracle_c10_dev, oracle_c05_dev, oracle_c07_join_twin, oracle_c12_dev_silent] {
+    for f in [oracle_c04_dev as fn(&str, &[String]) -> String, oracle_c06_dev, oracle_c10_dev, oracle_c05_dev, oracle_c07_join_twin, oracle_c12_dev_silent, oracle_c20_dev_restore] {
         let r = f(op, outs);
         if r != "ok" {
             return r;
@@ -945,7 +999,7 @@ pub fn oracle_c05_nb(op: &str, outs: &[String]) -> String {
 
 /// … and to the non-blocking front-end
 pub fn oracle_nb_all(op: &str, outs: &[String]) -> String {
-    for f in [oracle_c04_dev as fn(&str, &[String]) -> String, oracle_c06_dev, oracle_c10_nb, oracle_c05_nb, oracle_c12_dev_silent] {
+    for f in [oracle_c04_dev as fn(&str, &[String]) -> String, oracle_c06_dev, oracle_c10_nb, oracle_c05_nb, oracle_c12_dev_silent, oracle_c20_dev_restore] {
         let r = f(op, outs);
         if r != "ok" {
             return r;
@@ -1334,6 +1388,102 @@ pub fn oracle_c12_dev_silent(op: &str, outs: &[String]) -> String {
                 }
             }
             _ => {}
+        }
+    }
+    "ok".into()
+}
+
+
+/// A Class C application between uplinks: `rxc_listen` hears authentic frames (small, exactly at and
+/// beyond the RXC size limit), foreign parseable frames of any size, junk, replays and radio
+/// errors, before and after uplinks, joined and not joined.
+pub fn gen_dev_listen(suite: &str, region: &str, rng: &mut Rng) -> String {
+    let mut h = AHist::new(suite, region, rng.next() & 0xffffff, 15, 40, true, 57);
+    let joined = !rng.chance(1, 8);
+    if joined {
+        if rng.chance(1, 6) {
+            h.ev(&format!("sess {} {} -", DEVADDR, 0xffff_fffeu32));
+        } else {
+            h.abp();
+        }
+    }
+    let foreign = |rng: &mut Rng, len: usize| {
+        let mut d = DownDesc::new(0x0badcafe, rng.next() as u32 & 0xffff);
+        d.nwk = OTHER_KEY;
+        d.fport = Some(3);
+        d.payload = rng.bytes(len);
+        d.build().unwrap()
+    };
+    for round in 0..(1 + rng.below(3)) {
+        if joined && (round > 0 || rng.chance(2, 3)) {
+            h.asend(1 + rng.below(100) as u8, rng.chance(1, 4), &[round as u8], &[]);
+        }
+        let n = 1 + rng.below(5) as usize;
+        let mut script: Vec<String> = vec![];
+        for _ in 0..n {
+            match rng.below(9) {
+                0 => script.push("E".into()),
+                1 | 2 => {
+                    let len = *rng.pick(&[1usize, 1, 9, 45, 52, 53, 108, 200, 230]);
+                    let payload = rng.bytes(len);
+                    let cmds = if rng.chance(1, 3) { some_cmds(rng, region, 10) } else { vec![] };
+                    script.push(h.auth_item(rng.range(-20, 20) as i8, 1, rng.chance(1, 3), &cmds, Some(1 + rng.below(100) as u8), &payload));
+                }
+                3 | 4 => {
+                    let len = *rng.pick(&[0usize, 20, 60, 130, 200, 240]);
+                    let b = foreign(rng, len);
+                    script.push(h.frame_item(0, &b, None));
+                }
+                5 => {
+                    let nb = rng.below(40) as usize;
+                    let b = rng.bytes(nb);
+                    script.push(h.frame_item(0, &b, None));
+                }
+                _ => script.push("O".into()),
+            }
+        }
+        let e = format!("alisten | {}", script.join(" "));
+        h.ev(&e);
+        if rng.chance(1, 2) {
+            h.ev("snap");
+        }
+    }
+    h.ev("snap");
+    h.done()
+}
+
+
+/// C20 at device level: a session handed to a front-end (`sess`: async `Device::new_with_session`, nb
+/// `set_session`) is the session the device holds — the first snapshot after it, taken before
+/// anything else happens, shows a joined device with the restored address and counters, whatever
+/// their values.
+pub fn oracle_c20_dev_restore(op: &str, outs: &[String]) -> String {
+    let evs: Vec<&str> = op.split(';').skip(1).map(|s| s.trim()).collect();
+    let mut want: Option<(u32, u32, Option<u32>)> = None;
+    for (ev, o) in evs.iter().zip(outs.iter()) {
+        let w: Vec<&str> = ev.split('|').next().unwrap_or("").split_whitespace().collect();
+        match w.first().copied() {
+            Some("sess") if w.len() == 4 => {
+                want = match (w[1].parse::<u32>(), w[2].parse::<u32>()) {
+                    (Ok(da), Ok(up)) => Some((da, up, w[3].parse::<u32>().ok())),
+                    _ => None,
+                };
+            }
+            Some("snap") => {
+                if let Some((da, up, down)) = want.take() {
+                    match parse_snap(o) {
+                        Some(s) if s.joined => {
+                            if s.devaddr != da || s.fcnt_up != up || s.fcnt_down != down {
+                                return format!("FAIL:restored-session-({},{},{:?})-but-device-holds-({},{},{:?})", da, up, down, s.devaddr, s.fcnt_up, s.fcnt_down);
+                            }
+                        }
+                        Some(_) => return format!("FAIL:restored-session-({},{},{:?})-but-device-holds-no-session", da, up, down),
+                        None => {}
+                    }
+                }
+            }
+            Some("hold") | Some("take") => {}
+            _ => want = None,
         }
     }
     "ok".into()
